@@ -503,7 +503,7 @@ func genCall(r *rand.Rand) c19Call {
 }
 
 func runC19(e *Env) {
-	e.Rule = "short histories (3..8 calls on one router, so that a failed encoding is followed by a successful one) of response helper calls: Context.Text/HTML/HTMLString/JSON/JSONBytes/JSONP/XML/Blob/Stream/NoContent/Redirect/HTTPError and pkg/render JSON/JSONIndented/JSONRenderer/JSONP/XML/XMLPretty/XMLRenderer/Text/HTML/Blob/Auto; statuses from {-1,0,100,...,599,600,701,999}; request methods GET, POST, PUT and HEAD (through the GET route); a third of the calls run behind pkg/handlers.Timeout(1h), a quarter behind a buffering middleware that replaced c.Resp and replays status and body; values: strings with HTML/unicode/control characters, nested maps, structs, byte slices and unencodable values (chan, func, NaN, map holding a channel); Stream readers with and without WriteTo, one-byte reads and a failing reader; preset or absent Content-Type; Accept lists with q-parameters, blanks, unsupported types (incl. text/html, for which Auto has no renderer, anywhere in the list). Oracle: recorded status == given (200 for <= 0), Content-Type == documented constant (or the preset one where the documentation says it is preserved), body decodes with an independent decoder to the given value, Auto renders the first supported type, encoding failures surface in c.Errors / the returned error and never panic. Non-trivial: every call; distinct by call description. Stream sources also include partly consumed strings/bytes readers and a SectionReader; an announced Content-Length must equal the delivered body length."
+	e.Rule = "short histories (3..8 calls on one router, so that a failed encoding is followed by a successful one) of response helper calls: Context.Text/HTML/HTMLString/JSON/JSONBytes/JSONP/XML/Blob/Stream/NoContent/Redirect/HTTPError and pkg/render JSON/JSONIndented/JSONRenderer/JSONP/XML/XMLPretty/XMLRenderer/Text/HTML/Blob/Auto; statuses from {-1,0,100,...,599,600,701,999}; request methods GET, POST, PUT and HEAD (through the GET route); a third of the calls run behind pkg/handlers.Timeout(1h), a quarter behind a buffering middleware that replaced c.Resp and replays status and body; values: strings with HTML/unicode/control characters, nested maps, structs, byte slices and unencodable values (chan, func, NaN, map holding a channel); Stream readers with and without WriteTo, one-byte reads and a failing reader; preset or absent Content-Type; Accept lists with q-parameters, blanks, unsupported types (incl. text/html, for which Auto has no renderer, anywhere in the list). Oracle: recorded status == given (200 for <= 0), Content-Type == documented constant (or the preset one where the documentation says it is preserved), body decodes with an independent decoder to the given value, Auto renders the first supported type, encoding failures surface in c.Errors / the returned error and never panic. Non-trivial: every call; distinct by call description. Stream sources also include partly consumed strings/bytes readers and a SectionReader; an announced Content-Length must equal the delivered body length. A quarter of the calls are served right after a request of the same router that left a writer of its own in c.Resp."
 	e.Assumptions = []string{
 		"values compared after decoding with encoding/json / encoding/xml (numbers as float64)",
 		"XML strings restricted to characters XML can carry",
@@ -527,6 +527,12 @@ func runC19(e *Env) {
 				t.AutoSample()
 			}
 			router := rux.New()
+			leave := func() {}
+			if chance(r, 1, 4) {
+				leave = WriterLeaver(router) // the request before this one left its own writer in c.Resp
+				call.Desc += " [the previous request of the router left its writer in c.Resp]"
+				descs[len(descs)-1] = call.Desc
+			}
 			if chance(r, 1, 3) {
 				router.OnError = func(c *rux.Context) {} // a hook that only logs
 			}
@@ -574,6 +580,7 @@ func runC19(e *Env) {
 			if chance(r, 1, 3) {
 				w = RecRF{rec} // like net/http's response: the underlying writer has ReadFrom
 			}
+			leave()
 			pv, panicked := catch(func() { router.ServeHTTP(w, NewReq(method, "/x")) })
 			t.Count("calls.total", 1)
 			t.NonTrivial(call.Desc)
